@@ -6,7 +6,7 @@ with fewer than 2^24 top-level members.  Every theorem says: calling the functio
 is calling it on `encodeSpec v` (= `parse_value(t).to_vec()` by C01_layout).
 The 2^24 bound is real: see `C11_sniff_false_huge` (known finding D21).
 -/
-import JsonbModel.Proofs.TextEquiv3
+import JsonbModel.Proofs.TextEquiv4
 
 namespace Jsonb.Props
 open Jsonb JV
@@ -120,6 +120,20 @@ theorem C11_concat_text_text {t1 t2 : Bytes} {v1 v2 : JV} (h1 : TextOfFS t1 v1) 
 theorem C11_delete_by_index {t : Bytes} {vs : List JV} (h : TextOf t (arr vs))
     (i : Int) (hi : -2147483648 ≤ i ∧ i ≤ 2147483647) (buf : Bytes) :
     T.deleteByIndex t i buf = T.deleteByIndex (encodeSpec (arr vs)) i buf := deleteByIndex_text h i hi buf
+
+/-- `concat` with one text and one binary argument (the binary side is decoded by `from_slice`) -/
+theorem C11_concat_text_bin {t1 : Bytes} {v1 v2 : JV} (h1 : TextOfFS t1 v1) (hg : goodTop v2 = true)
+    (hs : topCount v2 < 16777216) (hres : goodTop (Spec.concat v1 v2) = true) (buf : Bytes) :
+    T.concat t1 (encodeSpec v2) buf = T.concat (encodeSpec v1) (encodeSpec v2) buf :=
+  concat_text_bin h1 hg hs hres buf
+theorem C11_concat_bin_text {t2 : Bytes} {v1 v2 : JV} (hg : goodTop v1 = true) (hs : topCount v1 < 16777216)
+    (h2 : TextOfFS t2 v2) (hres : goodTop (Spec.concat v1 v2) = true) (buf : Bytes) :
+    T.concat (encodeSpec v1) t2 buf = T.concat (encodeSpec v1) (encodeSpec v2) buf :=
+  concat_bin_text hg hs h2 hres buf
+/-- `delete_by_index` on any text (non-arrays: the same documented error on both sides) -/
+theorem C11_delete_by_index_any {t : Bytes} {v : JV} (h : TextOf t v)
+    (i : Int) (hi : -2147483648 ≤ i ∧ i ≤ 2147483647) (buf : Bytes) :
+    T.deleteByIndex t i buf = T.deleteByIndex (encodeSpec v) i buf := deleteByIndex_text_any h i hi buf
 
 /-- `RawJsonb`-style binary input is kept as it is by `parse_lazy_value` -/
 theorem C11_lazy_value_bin (v : JV) (hs : topCount v < 16777216) :
